@@ -1021,11 +1021,8 @@ func (c *Check) genesisImportsAll(rule string) {
 				}
 				extra = append(extra, g.String())
 			}
-			if len(extra) > 0 {
-				sort.Strings(extra)
-				why = append(why, "the element is stored only under "+strings.Join(extra, " ∧ "))
-				continue
-			}
+			// further guards are judged on the paths below: where such a guard fails the import must not go on silently
+			_ = extra
 			hit = e
 		}
 		// every committed path that takes an element of the collection under its cursor stores it (no skip inside the loop)
